@@ -538,3 +538,29 @@ func TestReplay_GroupFieldWithNameTagIsStillAGroupDependency(t *testing.T) {
 		t.Errorf("REPLAY-CONFIRMED Analyzer.buildDependencies#post[one_dependency_per_parameter]: rejected, but not as a circular dependency: %v", err)
 	}
 }
+
+type rbBadCloser struct{}
+
+func (*rbBadCloser) Close() error { return errors.New("close failed") }
+
+type rbNeedsCloser struct{}
+
+// godi.collection.doBuild#post[failed_singleton_phase_is_classifiable]: the error of a failing singleton constructor stays reachable
+// through the Build error also when cleaning up the half-built provider fails as well.
+func TestReplay_BuildFailureKeepsItsCause(t *testing.T) {
+	errCtor := errors.New("constructor failed")
+	c := NewCollection()
+	if err := c.AddSingleton(func() *rbBadCloser { return &rbBadCloser{} }); err != nil {
+		t.Fatal(err)
+	}
+	if err := c.AddSingleton(func(*rbBadCloser) (*rbNeedsCloser, error) { return nil, errCtor }); err != nil {
+		t.Fatal(err)
+	}
+	_, err := c.Build()
+	if err == nil {
+		t.Fatal("Build succeeded")
+	}
+	if !errors.Is(err, errCtor) {
+		t.Errorf("REPLAY-CONFIRMED collection.doBuild#post[failed_singleton_phase_is_classifiable]: the constructor's own error is not reachable from the Build error when cleanup fails too: %v", err)
+	}
+}
